@@ -191,7 +191,7 @@ func ruleC01Map(p *Prog, r *Result) {
 		if t == 0 {
 			t = guardPol(pa, "eq", replaceVal, nil)
 		}
-		if h == 1 && k == 1 && t == 1 {
+		if h != -1 && k == 1 && t == 1 {
 			return 1
 		}
 		if h == -1 || k == -1 || t == -1 {
@@ -475,6 +475,33 @@ func ruleC01List(p *Prog, r *Result) {
 				}
 				return -1
 			}
+			// the entry minus $match still holds $value: alone (one key) or with extra keys
+			if g.Kind == "len" && g.A != nil && g.A.Op == "clone" && (g.Const == "==1" || g.Const == "!=1" || g.Const == ">1") {
+				v := -1
+				if g.Const != "==1" {
+					v = 1
+				}
+				if g.Neg {
+					v = -v
+				}
+				return v
+			}
+			// or counted on the entry itself, which still holds the directive: more than one key
+			if g.Kind == "len" && g.A != nil && fromSrc(g.A) {
+				v := 0
+				switch g.Const {
+				case ">1", ">=2", "!=1":
+					v = 1
+				case "==1", "<=1", "<2":
+					v = -1
+				}
+				if g.Neg {
+					v = -v
+				}
+				if v != 0 {
+					return v
+				}
+			}
 		}
 		return 0
 	}
@@ -643,6 +670,9 @@ func ruleC01List(p *Prog, r *Result) {
 				return true, ""
 			}
 		}
+		if pr.positiveCounterGuard(pa) == 1 {
+			return true, ""
+		}
 		return false, "continues to the next child entry although no parent entry matched"
 	})
 }
@@ -700,6 +730,32 @@ func (pr *psRule) flagSetOnlyOnMatch(flag *T) bool {
 		}
 	}
 	return true
+}
+
+// positiveCounterGuard: the path tests a counter that only grows on a match against zero: 1 = known positive,
+// -1 = known zero, 0 = no such test.
+func (pr *psRule) positiveCounterGuard(pa *Path) int {
+	for _, g := range pa.Guards {
+		if g.A == nil || g.A.Op != "carried" || g.B == nil || !pr.counterGrowsOnlyOnMatch(g.A) {
+			continue
+		}
+		v := 0
+		switch {
+		case g.Kind == "eq" && g.B.IsConst("0"):
+			v = -1
+		case g.Kind == "cmp" && g.B.IsConst("0") && g.Const == ">", g.Kind == "cmp" && g.B.IsConst("1") && g.Const == ">=":
+			v = 1
+		case g.Kind == "cmp" && g.B.IsConst("0") && g.Const == "<=", g.Kind == "cmp" && g.B.IsConst("1") && g.Const == "<":
+			v = -1
+		}
+		if g.Neg {
+			v = -v
+		}
+		if v != 0 {
+			return v
+		}
+	}
+	return 0
 }
 
 // counterGrowsOnlyOnMatch: a loop-carried integer that starts at 0 and is incremented only on paths where the
@@ -772,7 +828,7 @@ func ruleC01Match(p *Prog, r *Result) {
 		if t == 0 {
 			t = guardPol(pa, "truth", invertVal, nil)
 		}
-		if h == 1 && k == 1 && t == 1 {
+		if h != -1 && k == 1 && t == 1 {
 			return 1
 		}
 		if h == -1 || k == -1 || t == -1 {
